@@ -78,6 +78,7 @@ VARIANTS = {
     (EL, "        pad = max(gain_min - gain_target, 0)\n        gain_target += pad", "        pad = max(0, gain_min - gain_target)\n        gain_target = gain_target + pad", 'commuted max, explicit add'),
   ]},
  'C05': {M: [
+    (SU, "        z, inverse = unique(concatenate((z_lumped_losses, z)), return_inverse=True)\n        # losses located at the same position are cumulated\n        merged_losses = ones(z.size)\n        for i, lumped_loss in zip(inverse, lumped_losses):\n            merged_losses[i] *= lumped_loss\n        return z, merged_losses", "        z, unique_indices = unique(concatenate((z_lumped_losses, z)), return_index=True)\n        return z, lumped_losses[unique_indices]", 'F13 reverted: first lumped loss per position only'),
     (EL, "    @property\n    def pmd(self):\n        \"\"\"differential group delay (PMD) [s]\"\"\"", "    @__import__('functools').cached_property\n    def pmd(self):\n        \"\"\"differential group delay (PMD) [s]\"\"\"", 'span PMD cached although the length can change (split_fiber)'),
     (EL, "        beta2 = -((c / frequency) ** 2 * dispersion) / (2 * pi * c)", "        beta2 = -((c / frequency) ** 2 * dispersion) / (2 * pi)", 'beta2 conversion loses a factor c'),
     (EL, "                dispersion = (frequency / self.params.f_dispersion_ref) ** 2 * self.params.dispersion", "                dispersion = (frequency / self.params.f_dispersion_ref) * self.params.dispersion", 'dispersion scaled linearly with frequency'),
